@@ -188,11 +188,16 @@ func LookupXpathFunction(
 
 var testedFunctionTable = make(map[string]bool)
 
+// (contexts with validation enabled may run concurrently)
 func markFunctionAsTested(name string) {
+	mu.Lock()
+	defer mu.Unlock()
 	testedFunctionTable[name] = true
 }
 
 func CheckAllFunctionsWereTested() error {
+	mu.Lock()
+	defer mu.Unlock()
 	for name, _ := range xpathFunctionTable {
 		if _, ok := testedFunctionTable[name]; !ok {
 			return fmt.Errorf("Function '%s' has not been tested!", name)
